@@ -18,5 +18,5 @@ def plan(tier, seed):
 
 
 def required(tier, classes, records):
-    pats = [("single null", r"find_critical\|[lu]sn"), ("double null", r"find_critical\|(cdn|ldn|udn)"), ("both signs", r"s-"), ("decision single", r"decision\|single"), ("decision double", r"decision\|double"), ("X-point diagonal from the O-point", r"pair\(diagonal\)"), ("single/double decision with the SOL edge given as psi_sol", r"decision\|(single|double)\|SOL edge given as psi_sol")]
+    pats = [("single null", r"find_critical\|[lu]sn"), ("double null", r"find_critical\|(cdn|ldn|udn)"), ("both signs", r"s-"), ("decision single", r"decision\|single"), ("decision double", r"decision\|double"), ("X-point diagonal from the O-point", r"pair\(diagonal\)"), ("single/double decision with the SOL edge given as psi_sol", r"decision\|(single|double)\|SOL edge given as psi_sol"), ("a second O-point inboard of the axis, met first by the scan", r"inboard dip")]
     return need_classes(classes, pats)
